@@ -98,7 +98,7 @@ func c17Calls(t *ref.Table, pool []string) []call {
 			}
 		}
 	}
-	for _, bad := range []string{"/posts/{}", "/posts/{x}{y}", "/posts/{x}/{x}", "/posts/{x}/{-x}", "/posts/{-x}/{x:\\d+}", "/p/{x}/{-x}", "/posts/{x:(}", "/posts/au{:a}", "", "/p/{}", "/p/{x}/{:a}"} {
+	for _, bad := range []string{"/posts/{}", "/posts/{x}{y}", "/posts/{x}/{x}", "/posts/{x}/{-x}", "/posts/{-x}/{x:\\d+}", "/p/{x}/{-x}", "/posts/{x:(}", "/posts/au{:a}", "", "/p/{}", "/p/{x}/{:a}", "/posts/{-}", "/posts/{-:\\d+}", "/p/{-}/y"} {
 		x = append(x, call{bad, []string{"PATCH"}})
 	}
 	for _, p := range t.Patterns() {
